@@ -73,7 +73,12 @@ def handle (line : String) : String :=
       if out.startsWith "decode=ok" && (o.str "shape" != "std" || out != expectOpened o) then s!"oracle-mismatch {out}"
       else out
     | _, _ => "bad-op"
-  | "mut" => if (o.hex? "file").isSome then "no-panic" else "bad-op"
+  | "mut" =>
+    -- the reader decides accept / reject itself: the MAC is recomputed over whatever the corrupted file
+    -- presents as authSafe content, salt, iteration count and digest
+    match o.hex? "file", runes? o "try" with
+    | some file, some rs => mutClass file rs (o.str "key") (o.str "cert")
+    | _, _ => "bad-op"
   | _ => "bad-op"
 
 end XC.C21
